@@ -105,9 +105,13 @@ inductive LogErr where
   | badHeader        -- the header is not the one `_init_log` writes (KeyError 'path' later)
   deriving DecidableEq, Repr, Inhabited
 
-/-- The `message` column of `retrieve_log()` (object dtype): `none` is NaN.
-    Records shorter than the header are padded with NaN by pandas. -/
-def readLog (text : List Char) : Except LogErr (List (Option (List Char))) :=
+/-- The `message` column of `retrieve_log()`: `none` is NaN.
+    `naFilter = true` is `pd.read_csv(log_path)` with pandas' defaults (the
+    code before fix 68c0db2): NA strings become NaN and records shorter than
+    the header are padded with NaN.  `naFilter = false` is
+    `pd.read_csv(log_path, dtype=str, keep_default_na=False)`: every field is
+    the string that stands in the file, missing trailing fields are `''`. -/
+def readLogWith (naFilter : Bool) (text : List Char) : Except LogErr (List (Option (List Char))) :=
   match csvParse text with
   | none => .error .parserError
   | some [] => .error .emptyData
@@ -116,8 +120,11 @@ def readLog (text : List Char) : Except LogErr (List (Option (List Char))) :=
     else if rows.any (fun r => decide (4 < r.length)) then .error .parserError
     else .ok (rows.map fun r =>
       match r[3]? with
-      | some m => if isNA m then none else some m
-      | none => none)
+      | some m => if naFilter && isNA m then none else some m
+      | none => if naFilter then none else some [])
+
+/-- The code as it is (since 68c0db2). -/
+def readLog (text : List Char) : Except LogErr (List (Option (List Char))) := readLogWith false text
 
 /-! ### annotations -/
 
